@@ -323,6 +323,69 @@ def trace_validation(pid, rep, n, rnd):
     return rejected
 
 
+def real_components(rep, rnd, n):
+    """The REAL CertificateAuth / AccessControl / RateLimiter refusing hostile request lines (percent-encoded CR/LF,
+    NUL, very long paths, header look-alikes) through the real protocol: recorded as executions of the model with the
+    corresponding chain outcome and judged by ServerConnObs like every other execution."""
+    import asyncio
+    from nauyaca.server.middleware import (AccessControl, AccessControlConfig, CertificateAuth, CertificateAuthConfig,
+                                           CertificateAuthPathRule, MiddlewareChain, RateLimitConfig, RateLimiter)
+    from vf.serverconn import PEER_DER, parse_wire
+    from vf.transports import FakeTransport
+    from vf.vloop import VLoop
+    from nauyaca.server.protocol import GeminiServerProtocol
+    from nauyaca.protocol.response import GeminiResponse
+    hostile = ["/app/x%0D%0A20%20text/gemini%0D%0A%23%20injected", "/app/%0A", "/app/%0d", "/app/" + "A" * 950, "/app/%00", "/app/\u00e9%C3%A9",
+               "/app/..%2F..%2Fetc", "/app/%250D%250A", "/app/ %0D%0A%0D%0A", "/%61pp/%0D%0A31%20gemini://evil/"]
+    traces = []
+    for _ in range(n):
+        kind = rnd.choice(["cert60", "cert61", "acl53", "rate44"])
+        loop = VLoop()
+        asyncio.set_event_loop(loop)
+        try:
+            if kind in ("cert60", "cert61"):
+                comp = CertificateAuth(CertificateAuthConfig(path_rules=[CertificateAuthPathRule(
+                    prefix=rnd.choice(["/app/", "/"]), require_cert=True, allowed_fingerprints={"sha256:" + "0" * 64} if kind == "cert61" else None)]))
+                der = PEER_DER if kind == "cert61" else None
+                outcome = "deny60"
+            elif kind == "acl53":
+                comp = AccessControl(AccessControlConfig(deny_list=["192.0.2.0/24"]))
+                der = None
+                outcome = "deny53"
+            else:
+                comp = RateLimiter(RateLimitConfig(capacity=1, refill_rate=0.001, retry_after=rnd.choice([1, 30])))
+                loop.run_coro(comp.process_request("gemini://h.ex/", "192.0.2.7"))
+                der = None
+                outcome = "deny44"
+            path = rnd.choice(hostile)
+            line = ("gemini://h.ex" + path)[:1000].encode("utf-8")
+            calls = []
+
+            def handler(req):
+                calls.append(req)
+                return GeminiResponse(status=20, meta="text/gemini", body="BODY-SENTINEL-é\n")
+            proto = GeminiServerProtocol(handler, MiddlewareChain([comp]))
+            tr = FakeTransport(loop, proto, peername=("192.0.2.7", 40000), peer_der=der, auto_lost=False)
+            loop.call(proto.connection_made, tr)
+            loop.call(tr.feed, line + b"\r\n")
+            loop.run_idle()
+            loop.call(tr.deliver_lost)
+            wire = parse_wire(tr.wire)
+            st = wire[0][0] if wire else 0
+            # map the status actually written back to the model's outcome for this component (61 is reported as 60-class deny)
+            cfg = {"s": {"lineLen": len(line), "crlf": True, "cls": "ok", "tsize": 0, "after": 0, "cuts": [len(line) + 2]},
+                   "mw": [outcome], "h": {"kind": "sync", "out": "ok20"}, "hasUpload": False}
+            obs = {"wire": [{"st": (60 if w[0] == 61 else w[0]), "body": w[1], "metaOK": w[2]} for w in wire],
+                   "tp": "lost" if tr.lost else ("closing" if tr.closing else "open"), "armed": loop.next_timer() is not None,
+                   "h": len(calls), "u": 0, "mw": 1, "busy": False, "torn": False, "consultedOK": True}
+            traces.append({"cfg": cfg, "steps": [{"a": "Data", "p": len(line) + 2, "o": obs}], "_line": line[:80].decode("latin1"), "_kind": kind,
+                           "_raw": bytes(tr.wire[:120]).decode("latin1")})
+        finally:
+            asyncio.set_event_loop(None)
+            loop.close()
+    return traces
+
+
 def binding_selftest(rep, rnd):
     """Demonstrate that the trace spec constrains: corrupt one logged field / drop one event of accepted
     traces and require rejection."""
@@ -395,13 +458,18 @@ def main(pid, rep=None, finish=True):
             suspects.append(("replay", m, {"cfg": m["cfg"], "steps": steps}))
         for t in rejected:
             suspects.append(("trace", t, {"cfg": t["cfg"], "steps": t["steps"]}))
+        rc = real_components(rep, rnd, 600 if thorough else 150)
+        rep.add("real_component_refusals", len(rc))
+        rep.add("traces_validated_against_impl", len(rc))
+        for t in rc:
+            suspects.append(("real-component", {"steps": t["steps"], "labels": [t["_kind"], t["_line"], t["_raw"]]}, {"cfg": t["cfg"], "steps": t["steps"]}))
         rep.set("nonconforming_executions", len(suspects))
         # judge a diverse subset: one execution per (class, chain, handler, action-name sequence)
         groups = {}
         for sp in suspects:
             tr = sp[2]
             key = (tr["cfg"]["s"]["cls"], tuple(tr["cfg"]["mw"]), tr["cfg"]["h"]["out"], tr["cfg"]["h"]["kind"],
-                   tuple(st["a"] for st in tr["steps"]))
+                   tuple(st["a"] for st in tr["steps"]), json.dumps(tr["steps"][-1].get("o", {}).get("wire")) if sp[0] == "real-component" else "")
             groups.setdefault(key, sp)
         cap = list(groups.values())[:3000]
         verdicts = obs_verdicts([s[2] for s in cap], rep)
@@ -414,6 +482,8 @@ def main(pid, rep=None, finish=True):
                 rep.violation(sig, "%s falsified by a real execution (%s): cfg=%s actions=%s" % (
                     ",".join(mine), kind, json.dumps(tr["cfg"]), [(s["a"], s.get("p")) for s in tr["steps"]]), full)
             else:
+                if kind == "real-component" and not bad:
+                    continue          # conforming executions of the real components
                 rep.drifted("%s execution departs from the model (other formulas falsified: %s%s): cfg=%s actions=%s" % (
                     kind, sorted(bad) or "none", "; action not performable: %s" % err[0]["error"] if err else "",
                     json.dumps(tr["cfg"]), full.get("labels") or [(s["a"], s.get("p")) for s in tr["steps"]]))
